@@ -35,8 +35,11 @@ REQUIRED = {"advance_calls": 150, "advance:m=0": 20, "advance:not_multiple_of_10
 
 def jobs(tier, seed):
     n_jobs = 16 if tier == "quick" else 32
-    return [{"name": f"adv-{j}", "seed": seed, "j": j, "n_programs": 10 if tier == "quick" else 70,
+    out = [{"name": f"adv-{j}", "seed": seed, "j": j, "n_programs": 10 if tier == "quick" else 70,
              "n_pools": 2 if tier == "quick" else 8, "n_timed": 8 if tier == "quick" else 50} for j in range(n_jobs)]
+    if tier == "thorough":
+        out.append({"name": "repo-tests", "seed": seed, "j": 999, "mode": "repo_tests"})
+    return out
 
 
 def lengths(ch, kind):
@@ -84,6 +87,10 @@ class CostedTarget:
 
 
 def run_job(job, rec):
+    if job.get("mode") == "repo_tests":
+        from vmon import repotests
+
+        return repotests.run(rec, ID)
     import inference.mcmc.base as base
     import inference.mcmc.utilities as util
     from inference.mcmc import ChainPool
